@@ -81,6 +81,21 @@ func registerReflectType(p *Program) {
 	reg("reflect.Type.String", func(m *Machine, fr *frame, args []Value) Value {
 		return types.TypeString(rtypeOf(args[0]).T, func(p *types.Package) string { return p.Name() })
 	})
+	reg("reflect.Type.NumMethod", func(m *Machine, fr *frame, args []Value) Value {
+		// exported methods in the method set (for an interface type: all its methods)
+		t := rtypeOf(args[0]).T
+		if it, ok := t.Underlying().(*types.Interface); ok {
+			return int64(it.NumMethods())
+		}
+		ms := types.NewMethodSet(t)
+		n := 0
+		for i := 0; i < ms.Len(); i++ {
+			if ms.At(i).Obj().Exported() {
+				n++
+			}
+		}
+		return int64(n)
+	})
 	reg("reflect.Type.NumField", func(m *Machine, fr *frame, args []Value) Value {
 		if t, ok := rtypeOf(args[0]).T.Underlying().(*types.Struct); ok {
 			return int64(t.NumFields())
